@@ -99,7 +99,7 @@ def plan(tier, seed):
              'le-features-live', 'le-features-peer-gone', 'remote-name-present', 'remote-name-absent',
              'le-encrypt-live', 'le-encrypt-dead', 'cis-setup', 'cis-bad-handle', 'classic-features-live',
              'classic-auth-live', 'remote-version-live', 'remote-version-dead', 'classic-accept-central-switch-refused',
-             'classic-accept-central-switch-allowed', 'classic-accept-peripheral']
+             'classic-accept-central-switch-allowed', 'classic-accept-peripheral', 'le-connect-cancel-race']
     reps = 8 if tier == 'quick' else 40
     for p in procs:
         for k in range(reps):
@@ -522,6 +522,81 @@ async def proc_case(case, r: R):
         if resp is not None and getattr(resp, 'status', 0) != 0:
             r.bad('conclude/blocked/proc/le-create-connection-after-cancel',
                   f'a new LE Create Connection after the cancel was refused with status {resp.status}')
+    elif p == 'le-connect-cancel-race':
+        # The host cancels while an advertising PDU of the target is already on its way to the initiating
+        # controller: whichever wins, ONE completion event concludes the one LE Create Connection.
+        await vloop.vwait(rg.devices[1].start_advertising(auto_restart=False, advertising_interval_min=200,
+                                                          advertising_interval_max=200))
+        await rg.quiesce()
+        s0 = len(rg.hci_log)
+        # (through Device.connect(), so that the Device knows what the completion event is about)
+        ctask = asyncio.ensure_future(rg.devices[0].connect(rg.devices[1].random_address, timeout=60))
+        st = None
+        for _ in range(2000):
+            await asyncio.sleep(0)
+            cs = [e for e in parse_events(rg.hci_log, 0, s0) if e[1] == 'cs' and e[2] in (0x200D, 0x2043)]
+            if cs:
+                st = cs[0]
+                break
+        already = [e for e in parse_events(rg.hci_log, 0, s0) if e[1] == 'ev' and e[4] in {('le', 0x01), ('le', 0x0A)}]
+        if st is not None and st[3] == 0 and not already:
+            # the cancel is processed `turns` loop turns after the PDU was sent; the PDU is delivered one turn
+            # after it was sent (the link's call_soon), so 0 puts the cancel just before the delivery
+            turns = case['seed'] % 3
+            rg.inboxes[0].max_delay = 0
+            cancel = bytes(hci.HCI_LE_Create_Connection_Cancel_Command())
+            armed = [True]
+            inner = ctl.on_ll_advertising_pdu
+
+            def inject():
+                rg.log_hci(0, 'h2c', cancel)
+                try:
+                    ctl.on_packet(cancel)
+                except Exception as e:
+                    rg.note_exception('race-cancel', e)
+
+            def on_adv(*a):
+                inner(*a)
+                if armed[0]:
+                    armed[0] = False
+                    r.ev('cancel_raced_with_advertising_pdu')
+                    r.sig('cancel-race', turns, delay)
+
+                    def later(n):
+                        if n == 0:
+                            inject()
+                        else:
+                            asyncio.get_running_loop().call_soon(later, n - 1)
+                    later(turns)
+            ctl.on_ll_advertising_pdu = on_adv
+            deadline = asyncio.get_running_loop().time() + 30
+            while armed[0] and asyncio.get_running_loop().time() < deadline:
+                await asyncio.sleep(0.05)
+            await asyncio.sleep(2)
+            await rg.quiesce()
+            ctl.on_ll_advertising_pdu = inner
+            try:
+                await vloop.vwait(ctask, 120)
+            except vloop.Hang:
+                r.bad('conclude/never/proc/le-create-connection-cancel-race', 'connect() still pending 120 s after the race')
+            except Exception:
+                pass
+            evs = parse_events(rg.hci_log, 0, s0)
+            done = [e for e in evs if e[1] == 'ev' and e[4] in {('le', 0x01), ('le', 0x0A)}]
+            answers = [e for e in evs if e[1] in ('cc', 'cs') and e[2] == 0x200E]
+            r.ev('oracle_evals')
+            r.ev('pending_procedures_followed')
+            if armed[0]:
+                pass        # no advertising PDU came by: nothing raced
+            elif len(answers) != 1:
+                r.bad('answer/' + ('none' if not answers else 'multiple') + '/proc/le-create-connection-cancel-race',
+                      f'{len(answers)} answers to the cancel injected {turns} turns after an advertising PDU was sent')
+            elif len(done) != 1:
+                r.bad('conclude/' + ('never' if not done else 'twice') + '/proc/le-create-connection-cancel-race',
+                      f'one LE Create Connection, cancel (answered status {answers[0][3]}) injected {turns} loop turns '
+                      f'after an advertising PDU of the target was sent on the link (link delay <= {delay}): '
+                      f'{len(done)} LE (Enhanced) Connection Complete events '
+                      f'{[rg.hci_log[e[0]][3][:8].hex() for e in done]}')
     elif p in ('classic-connect-present', 'classic-connect-absent'):
         target = rg.devices[1].public_address if p.endswith('present') else absent_br
         await issue(hci.HCI_Create_Connection_Command(
